@@ -102,10 +102,22 @@ func (s *Sim) send(x int, u Update) {
 func (s *Sim) DoAdd(x int, amt lnwire.MilliSatoshi, expiry uint32,
 	dupOf *HTLC) (bool, error) {
 
+	return s.DoAddExp(x, amt, expiry, dupOf, 0)
+}
+
+// DoAddExp is DoAdd where a duplicate may get a different expiry (same hash
+// and amount: identical scripts for offered HTLCs, the BOLT-3 CLTV
+// tie-break decides the output order).
+func (s *Sim) DoAddExp(x int, amt lnwire.MilliSatoshi, expiry uint32,
+	dupOf *HTLC, dupExpiry uint32) (bool, error) {
+
 	s.seq++
 	h := &HTLC{From: x, Amt: amt, Expiry: expiry, Seq: s.seq}
 	if dupOf != nil {
 		h.Amt, h.Expiry = dupOf.Amt, dupOf.Expiry
+		if dupExpiry != 0 {
+			h.Expiry = dupExpiry
+		}
 		h.Preimage, h.Hash = dupOf.Preimage, dupOf.Hash
 	} else {
 		h.Preimage, h.Hash = preimageFor(s.P, s.seq)
